@@ -132,6 +132,22 @@ def _run_mc(module, cfg, name, workers=NCPU, timeout=3600, heap="8g"):
     return dict(progs=progs, states=r["distinct"], transitions=r["generated"], wall=r["wall"], text=text)
 
 
+def run_tlapm(relpath, timeout=900):
+    """Re-check a TLAPS proof (spec/proof/...); returns the number of obligations proved; anything else is an Infra error."""
+    d = os.path.join(SPEC, os.path.dirname(relpath))
+    shutil.rmtree(os.path.join(d, ".tlacache"), ignore_errors=True)
+    try:
+        p = subprocess.run(["tlapm", "--threads", str(NCPU), os.path.basename(relpath)], cwd=d, capture_output=True, text=True, timeout=timeout)
+    except (subprocess.TimeoutExpired, FileNotFoundError) as e:
+        raise Infra("tlapm failed to run: %r" % e)
+    out = p.stdout + p.stderr
+    shutil.rmtree(os.path.join(d, ".tlacache"), ignore_errors=True)
+    m = re.search(r"All (\d+) obligations? proved", out)
+    if not m:
+        raise Infra("TLAPS proof %s not accepted:\n%s" % (relpath, out[-2000:]))
+    return int(m.group(1))
+
+
 def expect_violation(module, cfg, name, workers=8, timeout=900):
     """Sensitivity self-test of a specification: a config that encodes a deliberate deviation must make TLC report an
     invariant violation; if it does not, the model has lost its teeth (infrastructure error, not a verdict)."""
